@@ -51,10 +51,9 @@ impl<T: Write + Read + Seek> PagedWriter<T> {
         // Make sure we wrote any current (partial) page before seeking
         self.flush().write_err("Failed to flush before seeking")?;
 
-        let end = self
-            .writer
-            .seek(SeekFrom::End(0))
-            .write_err("Failed to seek to file end")?;
+        // Validate the target first, a rejected seek must not move anything.
+        // Asking for the size does not change the position of the underlying writer.
+        let end = self.physical_size()?;
         if pos > end {
             Error::invalid("Cannot seek after end of file")?
         }
